@@ -270,11 +270,17 @@ class Check(PropertyCheck):
                   "for HTTP and WebSocket flows the typed layer is given only the DESCRIPTION of each edit and must predict "
                   "the full nested get_state() of every flow (compared token by token, incl. header lists and bodies).")
     level_note = ("generic layer (all flow types): edits are inputs (their resulting component state is observed and given "
-                  "to the model). Typed layer (HTTP/WebSocket flows only): edit results are predicted; leaf values the model "
+                  "to the model) - kept as a second tie only; the typed layer (ALL flow types: HTTP, WebSocket, TCP/UDP message "
+                  "lists, DNS request/response incl. questions) is given the description of the edit and predicts the result, so "
+                  "no implementation state is copied into it. Oracle audit: no Skip; the generator drops operations on "
+                  "non-existent handles / beyond 4 flows (never reach the implementation); the only lenient place of the oracle "
+                  "is the edited component itself (the statement does not say what an edit does) - any other change of the "
+                  "edited flow or of another flow is rejected (known_selftest). The oracle is relational (get_state() before "
+                  "vs after) because the statement is; the input-derived reference for the state after an edit is the typed "
+                  "model's prediction. Leaf values the model "
                   "never computes on (timestamps, host, path, status, connection field values, metadata values) are interned "
                   "atoms, header names/values and bodies are real bytes; set_content is modelled for messages without a "
-                  "content-encoding header; nested mutation inside a metadata VALUE is given as the new value. TCP/UDP/DNS "
-                  "message edits remain in the generic layer only. Fresh-cell allocation by from_state/copy and the "
+                  "content-encoding header; nested mutation inside a metadata VALUE is given as the new value. Fresh-cell allocation by from_state/copy and the "
                   "in-place/re-assign split of set_state are modelling claims validated by the differential run, not "
                   "proved about Python. Flow.modified() is modelled after the repair of F-C40a. A copy inherits the "
                   "source's backup including the source's id, so reverting a copy gives it the source's id: modelled as "
@@ -304,6 +310,39 @@ class Check(PropertyCheck):
     def setup(self, tier):
         # forked workers pay seconds of copy-on-write warm-up each: single process for the quick tier
         self.parallel = tier == "thorough"
+        self.known_selftest()
+
+    def known_selftest(self):
+        """doctored observations that the oracle must reject (and their undoctored twins that it must accept); independent of
+        the tree under test.  The only lenient place of the oracle is the edited component itself (an edit may set component
+        j to anything: the statement does not say what an edit does) — `edit-other` is the case just outside it."""
+        F = lambda i, lv, c, b, m: [i, lv, list(c), b, m]
+        case = {"type": "http", "ops": []}
+        base = F(1, 1, [1, 2, 3], None, 0)
+        tests = [
+            ("backup-ok", [[base], [F(1, 1, [1, 2, 3], [1, [1, 2, 3]], 0)]], [["backup", 0, {}]], False),
+            ("modified-after-backup", [[base], [F(1, 1, [1, 2, 3], [1, [1, 2, 3]], 1)]], [["backup", 0, {}]], True),
+            ("edit-ok", [[base], [F(1, 1, [1, 9, 3], None, 0)]], [["e", 0, {"j": 1}]], False),
+            ("edit-other", [[base], [F(1, 1, [1, 9, 4], None, 0)]], [["e", 0, {"j": 1}]], True),
+            ("edit-live", [[base], [F(1, 0, [1, 9, 3], None, 0)]], [["e", 0, {"j": 1}]], True),
+            ("revert-ok", [[base], [F(1, 1, [1, 2, 3], [1, [1, 2, 3]], 0)], [F(1, 1, [1, 9, 3], [1, [1, 2, 3]], 1)], [base]],
+             [["backup", 0, {}], ["e", 0, {"j": 1}], ["revert", 0, {}]], False),
+            ("revert-wrong", [[base], [F(1, 1, [1, 2, 3], [1, [1, 2, 3]], 0)], [F(1, 1, [1, 9, 3], [1, [1, 2, 3]], 1)], [F(1, 1, [1, 9, 3], None, 0)]],
+             [["backup", 0, {}], ["e", 0, {"j": 1}], ["revert", 0, {}]], True),
+            ("revert-keeps-backup", [[base], [F(1, 1, [1, 2, 3], [1, [1, 2, 3]], 0)], [F(1, 1, [1, 2, 3], [1, [1, 2, 3]], 0)]],
+             [["backup", 0, {}], ["revert", 0, {}]], True),
+            ("not-modified-after-edit", [[base], [F(1, 1, [1, 2, 3], [1, [1, 2, 3]], 0)], [F(1, 1, [1, 9, 3], [1, [1, 2, 3]], 0)]],
+             [["backup", 0, {}], ["e", 0, {"j": 1}]], True),
+            ("copy-ok", [[base], [base, F(2, 0, [1, 2, 3], None, 0)]], [["copy", 0, {"fresh": True}]], False),
+            ("copy-live", [[base], [base, F(2, 1, [1, 2, 3], None, 0)]], [["copy", 0, {"fresh": True}]], True),
+            ("copy-stale-id", [[base], [base, F(2, 0, [1, 2, 3], None, 0)]], [["copy", 0, {"fresh": False}]], True),
+            ("copy-content", [[base], [base, F(2, 0, [1, 2, 4], None, 0)]], [["copy", 0, {"fresh": True}]], True),
+            ("edit-leaks", [[base], [base, F(2, 0, [1, 2, 3], None, 0)], [F(1, 1, [1, 9, 3], None, 0), F(2, 0, [1, 9, 3], None, 0)]],
+             [["copy", 0, {"fresh": True}], ["e", 0, {"j": 1}]], True),
+        ]
+        for name, steps, applied, want_fail in tests:
+            got = bool(self.oracle(case, {"steps": steps, "applied": applied, "problems": []}))
+            assert got == want_fail, f"C40 oracle self-test {name}: expected {'a failure' if want_fail else 'no failure'}"
 
     # ------------------------------------------------------------------ generation
     def generate(self, rng, tier):
